@@ -20,7 +20,9 @@ IsoChoices == <<
   Compose(Trans(-1, 3, 2), RotIso("y", 1)),
   Compose(Trans(0, 1, 4), RotIso("z", 10)),
   Trans(0, 0, 5),                                 \* axial tool (along the flange axis)
-  Compose(Trans(0, 0, 2), RotIso("z", 4))         \* axial tool with a twist about the axis
+  Compose(Trans(0, 0, 2), RotIso("z", 4)),        \* axial tool with a twist about the axis
+  RotIso("y", 1),                                 \* rotation only (no translation), generic angle
+  RotIso("x", 9)                                  \* rotation only, quarter turn
 >>
 
 Params == [a1 |-> 3, a2 |-> -1, b |-> 1, c1 |-> 9, c2 |-> 11, c3 |-> 12, c4 |-> 2]
